@@ -257,6 +257,10 @@ fn git_layer(ctx: &Ctx, quick: bool) -> Stats {
     let (all_shapes, _) = gitx::explore_shapes(4, if quick { 1 } else { 2 });
     let mut seen = std::collections::BTreeSet::new();
     let shapes: Vec<&Shape> = all_shapes.iter().filter(|s| seen.insert((s.parents.clone(), s.branches.clone()))).filter(|s| !quick || s.parents.len() <= 3 || s.has_merge()).collect();
+    // histories outside the BFS alphabet: merge commits where a fast-forward was possible, criss-cross and octopus merges
+    let specials = gitx::special_shapes();
+    let n_bfs_shapes = shapes.len();
+    let shapes: Vec<&Shape> = shapes.into_iter().chain(specials.iter()).collect();
     let names = [("v1.0.0", [1u64, 0, 0]), ("v2.0.0", [2, 0, 0])];
     // work units: (shape, date mode, chunk of tag placements) - each unit owns one materialised repository, so that the
     // few large shapes do not serialise the layer
@@ -267,10 +271,11 @@ fn git_layer(ctx: &Ctx, quick: bool) -> Stats {
         let modes: Vec<DateMode> = if shape.has_merge() { vec![DateMode::Increasing, DateMode::ZigZag] } else { vec![DateMode::Increasing] };
         // placements: v1.0.0 alone on any commit; v1.0.0 and v2.0.0 on any pair of commits
         let mut labelings: Vec<Vec<Tag>> = (0..n).map(|c| vec![Tag { name: "v1.0.0".into(), target: c, annotated: c % 2 == 1 }]).collect();
-        for a in 0..n { for b in 0..n { labelings.push(vec![Tag { name: "v1.0.0".into(), target: a, annotated: false }, Tag { name: "v2.0.0".into(), target: b, annotated: true }]); } }
+        let special = si >= n_bfs_shapes;
+        if !special { for a in 0..n { for b in 0..n { labelings.push(vec![Tag { name: "v1.0.0".into(), target: a, annotated: false }, Tag { name: "v2.0.0".into(), target: b, annotated: true }]); } } }
         // the release commit also carries shorter spellings of the same version (floating tags v1 / v1.0): equal under
         // PEP 440, so whichever is taken as base, the result must still be measured from 1.0.0
-        for c in 0..n { labelings.push(vec![Tag { name: "v1.0.0".into(), target: c, annotated: false }, Tag { name: "v1.0".into(), target: c, annotated: false }, Tag { name: "v1".into(), target: c, annotated: c % 2 == 0 }]); }
+        if !special { for c in 0..n { labelings.push(vec![Tag { name: "v1.0.0".into(), target: c, annotated: false }, Tag { name: "v1.0".into(), target: c, annotated: false }, Tag { name: "v1".into(), target: c, annotated: c % 2 == 0 }]); } }
         for (mi, mode) in modes.iter().enumerate() { for chunk in labelings.chunks(4) { units.push(Unit { si, shape, mi, mode: *mode, labelings: chunk.to_vec() }); } }
     }
     let st = units.par_iter().enumerate().map(|(ui, u)| {
@@ -341,6 +346,35 @@ fn git_layer(ctx: &Ctx, quick: bool) -> Stats {
                         }
                     }
                     repo.reset_worktree();
+                    // the history of the checked-out branch, read backwards along first parents: with one tag below all of it and the
+                    // default (commit post-mode) rules, every commit has a strictly greater version than its first parent - also
+                    // when the commits it adds are all merge commits. The branch ref is moved back commit by commit.
+                    if tags.len() == 1 && !b.starts_with("release") {
+                        let tagged_at = tags[0].target;
+                        let mut chain = vec![tip];
+                        while let Some(&fp) = shape.parents[*chain.last().unwrap()].first() { if fp == tagged_at || !shape.ancestors_or_self(fp).contains(&tagged_at) { break; } chain.push(fp); }
+                        if chain.len() >= 2 && shape.ancestors_or_self(tip).contains(&tagged_at) && tip != tagged_at {
+                            let dir = repo.dir.to_string_lossy().to_string();
+                            let mut vers: Vec<Vec<String>> = vec![];
+                            for &c in &chain {
+                                gitx::git(&repo.dir, &["update-ref", &format!("refs/heads/{b}"), &repo.shas[c]], None);
+                                gitx::git(&repo.dir, &["reset", "-q", "--hard"], None);
+                                let mut row = vec![];
+                                for fmt in ["semver", "pep440"] { st.inc("runs"); st.inc("first_parent_chain_runs"); match zv::run_cli(&["flow", "-C", &dir, "--output-format", fmt], None) { Ok(Res::Ok(v)) => row.push(v), other => { ctx.violation("git_flow_failed", format!("first-parent walk on {b} at commit {c}"), json!({"kind":"git-chain"}), format!("{other:?}")); row.push(String::new()); } } }
+                                vers.push(row);
+                            }
+                            gitx::git(&repo.dir, &["update-ref", &format!("refs/heads/{b}"), &repo.shas[tip]], None);
+                            gitx::git(&repo.dir, &["reset", "-q", "--hard"], None);
+                            for w in 0..chain.len() - 1 { for (fi, fmt) in ["semver", "pep440"].iter().enumerate() {
+                                let (child, parent) = (&vers[w][fi], &vers[w + 1][fi]);
+                                if child.is_empty() || parent.is_empty() { continue; }
+                                st.inc("first_parent_steps");
+                                if cmp_versions(fmt, child, parent) != Some(Ordering::Greater) {
+                                    ctx.violation("git_commit_step_not_increasing", format!("ops {:?} tags {:?} branch {b}: commit {} after its first parent {} [{fmt}]", shape.ops, tags.iter().map(|t| format!("{}@{}", t.name, t.target)).collect::<Vec<_>>(), chain[w], chain[w + 1]), json!({"kind":"git-chain","ops":shape.ops}), format!("{parent} then {child}"));
+                                }
+                            }}
+                        }
+                    }
                 }
             }
             repo.remove();
